@@ -575,11 +575,109 @@ def run_restore(spec):
         shutil.rmtree(tmpd, ignore_errors=True)
     return res
 
+
+# ------------------------------------------------------------------------------------------------ public operations that move particles
+def run_ops(spec):
+    """every public operation that moves particles OUTSIDE of a step while a tree exists: move_to_com, move_to_hel, rotate,
+    sim += / -= / *=, multiply, direct particle edits + update_tree(), convert_particle_units.  After move_to_com (which
+    maintains boundary + tree itself) and after direct edits + sim.update_tree() the invariants are checked immediately;
+    after the others (the library leaves the tree alone) they are checked after the next step.  Invariants: N conserved by
+    identity (periodic/shear), positions inside the box, every particle in exactly one leaf of a containing cell."""
+    rng = random.Random(spec["seed"])
+    res = {"fail": None, "dumps": [], "upd": [], "bcases": [], "stats": {"tree_checks": 0, "shape_checks": 0, "ties": 0, "maxdepth": 0, "cells": 0,
+                                                                         "grav_checks": 0, "steps": 0, "ops": 0}}
+    box = L.Box(spec["rs"], *spec["n"])
+    sim = setup(spec)
+    if spec.get("units"):
+        sim.units = ("AU", "yr", "Msun")
+        sim.configure_box(spec["rs"], *spec["n"])
+    taken = set()
+    off = [rng.uniform(-0.3, 0.3) * box.box[a] for a in range(3)]         # an off-centre centre of mass
+    for i in range(spec["N"]):
+        while True:
+            p = tuple(min(max(off[a] * rng.random() + rng.uniform(-0.5, 0.5) * box.box[a], -box.box[a] / 2. * 0.999), box.box[a] / 2. * 0.999) for a in range(3))
+            if p not in taken:
+                break
+        taken.add(p)
+        if rng.random() < 0.3:        # near a border
+            a = rng.randrange(3); p = list(p); p[a] = rng.choice([-1, 1]) * box.box[a] / 2. * rng.uniform(0.97, 0.9999); p = tuple(p)
+        vel = spec["vel"]
+        sim.add(m=rng.uniform(0.1, 1.0) * spec.get("mscale", 1e-3), x=p[0], y=p[1], z=p[2], vx=rng.gauss(0, vel), vy=rng.gauss(0, vel),
+                vz=rng.gauss(0, vel), r=spec.get("radius", 0.0), hash=i + 1)
+    if sim.collision != "none":
+        sim.collision_resolve = lambda s_, c_: 0
+    conserve = spec["boundary"] in ("periodic", "shear")
+    ids0 = sorted(p.hash.value for p in sim.particles)
+    opname = "setup"
+
+    def verify(where, tree_now):
+        ids = sorted(sim.particles[i].hash.value for i in range(sim.N) if not math.isnan(sim.particles[i].y))
+        if conserve and ids != ids0:
+            raise Fail("ops:particle_lost", "after %s: particles %s are gone (N %d -> %d, boundary %s, gravity=%s collision=%s)"
+                       % (where, sorted(set(ids0) - set(ids))[:6], len(ids0), sim.N, spec["boundary"], spec.get("gravity"), spec.get("collision")))
+        if not set(ids) <= set(ids0):
+            raise Fail("ops:particle_lost", "after %s: unknown particles" % where)
+        for i in range(sim.N):
+            q = sim.particles[i]
+            if spec["boundary"] != "none" and not math.isnan(q.y) and not in_box(box, (q.x, q.y, q.z)):
+                raise Fail("ops:outside_box", "after %s: particle id %d at (%r,%r,%r) is outside the box" % (where, q.hash.value, q.x, q.y, q.z))
+        if tree_now and not any(math.isnan(sim.particles[i].y) for i in range(sim.N)):
+            check_tree(sim, box, "after " + where, res, spec)
+    try:
+        for k in range(spec["nops"]):
+            if sim.N < 2:
+                break            # (open box: everything left)
+            opname = rng.choice(spec["ops"])
+            res["stats"]["ops"] += 1
+            immediate = False
+            if opname == "move_to_com":
+                sim.move_to_com(); immediate = True
+            elif opname == "move_to_hel":
+                sim.move_to_hel()
+            elif opname == "rotate":
+                sim.rotate(rebound.Rotation(angle=rng.uniform(-3, 3), axis=[rng.gauss(0, 1), rng.gauss(0, 1), rng.gauss(0, 1) + 0.1]))
+            elif opname in ("iadd", "isub"):
+                other = sim.copy()
+                other.multiply(rng.uniform(0.0, 0.3), rng.uniform(0.0, 0.3))
+                if opname == "iadd":
+                    sim += other
+                else:
+                    sim -= other
+            elif opname == "imul":
+                sim *= rng.uniform(0.7, 1.6)
+            elif opname == "multiply":
+                sim.multiply(rng.uniform(0.7, 1.5), rng.uniform(0.5, 1.5))
+            elif opname == "edit":
+                for i in rng.sample(range(sim.N), max(1, sim.N // 3)):
+                    q = sim.particles[i]
+                    q.x = rng.uniform(-0.5, 0.5) * box.box[0] * 0.999; q.y = rng.uniform(-0.5, 0.5) * box.box[1] * 0.999; q.z = rng.uniform(-0.5, 0.5) * box.box[2] * 0.999
+                sim.update_tree(); immediate = True
+            elif opname == "units":
+                sim.convert_particle_units("AU", "yr2pi", "Msun") if k % 2 == 0 else sim.convert_particle_units("AU", "yr", "Msun")
+            drain_msgs(sim)
+            if immediate:
+                verify(opname, True)
+            for s in range(rng.choice([1, 1, 2])):
+                sim.step(); res["stats"]["steps"] += 1
+            drain_msgs(sim)
+            verify("%s + step" % opname, True)
+    except Fail as f:
+        res["fail"] = {"key": f.key, "what": f.what, "detail": f.detail, "step": res["stats"]["steps"]}
+    except RuntimeError as e:
+        res["fail"] = {"key": "ops:error", "what": "library raised after %s: %s" % (opname, e)}
+    return res
+
+
+def drain_msgs(sim):
+    sim.process_messages()
+
 # ------------------------------------------------------------------------------------------------ corner cases (explicit coordinates)
 def run_corner(spec):
     res = {"fail": None, "dumps": [], "bcases": [], "stats": {"steps": 0, "tree_checks": 0, "shape_checks": 0, "ties": 0, "maxdepth": 0, "cells": 0, "grav_checks": 0}}
     box = L.Box(spec["rs"], *spec["n"])
     sim = setup(spec)
+    if "integrator" in spec:
+        sim.integrator = spec["integrator"]
     for i, p in enumerate(spec["pts"]):
         sim.add(m=1e-3, x=p[0], y=p[1], z=p[2], vx=p[3] if len(p) > 3 else 0., vy=0., vz=0., hash=i + 1)
     if "ops" in spec:
@@ -589,6 +687,14 @@ def run_corner(spec):
             for op in spec["ops"]:
                 if op[0] == "add":
                     sim.add(m=op[1], x=op[2], y=op[3], z=op[4]); n_expected += 1
+                elif op[0] == "orbit":
+                    sim.add(m=op[1], a=op[2], f=op[3], r=op[4]); n_expected += 1
+                elif op[0] == "move_to_hel":
+                    sim.move_to_hel()
+                elif op[0] == "move_to_com":
+                    sim.move_to_com()
+                elif op[0] == "resolve0":
+                    sim.collision_resolve = lambda s_, c_: 0
                 elif op[0] == "remove":
                     sim.remove(index=op[1], keep_sorted=False); n_expected -= 1
                 else:
@@ -632,5 +738,5 @@ def run_corner(spec):
 
 if __name__ == "__main__":
     spec = json.load(sys.stdin)
-    r = {"tree": run_tree, "boundary": run_boundary, "corner": run_corner, "restore": run_restore}[spec["kind"]](spec)
+    r = {"tree": run_tree, "boundary": run_boundary, "corner": run_corner, "restore": run_restore, "ops": run_ops}[spec["kind"]](spec)
     sys.stdout.write("\nC15RESULT " + json.dumps(r) + "\n")
